@@ -71,7 +71,9 @@ ENGINES["client"] = {
 ENGINES["ctl"] = {
     "pkg": "./harness/ctl",
     "instr": ["chord:1:node_state.go=2", "kv/memory:1", "util/promise:1", "util/atomic:1", "tun/server:1", "spec/transport:1", "acme:1"],
-    "inject": {"chord/zz_verif_export.go": "inject/chord/zz_verif_export.go", "tun/server/zz_verif_export.go": "inject/tunserver/zz_verif_export.go"},
+    "observe_method": "Mount",
+    "inject": {"chord/zz_verif_export.go": "inject/chord/zz_verif_export.go", "tun/server/zz_verif_export.go": "inject/tunserver/zz_verif_export.go",
+               "spec/rpc/zz_verif_export.go": "inject/rpc/zz_verif_export.go"},
     "real": ["tun/server.Server with its real RPC wiring (attachRPC: twirp servers + verifyClientIdentity hook + chi + rate limiter + http.Server), spec/transport.StreamRouter, rpc.DynamicTunnelClient (net/http client)",
              "spec/pki certificate generation and identity extraction", "route cache (theine) and its loader", "the KV of a real 1-3 node chord ring (chord.LocalNode + kv/memory over simnet)"],
     "stub": ["QUIC transports -> simnet.MemTransport (in-memory pipes; the verified peer certificate of a stream is set directly, as the QUIC transport does after its handshake)",
@@ -277,7 +279,7 @@ def build(engine, tmp):
     rc, out = sh([GO, "build", "-o", os.path.join(bdir, "instr"), "./cmd/instr"], cwd=sim, timeout=900)
     if rc != 0:
         raise BuildError("building the instrumenter failed:\n" + out)
-    rc, out = sh([os.path.join(bdir, "instr"), "-mod", sim, "-repo", REPO, "-out", bdir, "-overlay-extra", os.path.join(bdir, "extra.json"), "-osredirect", e.get("osredirect", "")] + e["instr"], cwd=sim, timeout=900)
+    rc, out = sh([os.path.join(bdir, "instr"), "-mod", sim, "-repo", REPO, "-out", bdir, "-overlay-extra", os.path.join(bdir, "extra.json"), "-osredirect", e.get("osredirect", ""), "-observe-method", e.get("observe_method", "")] + e["instr"], cwd=sim, timeout=900)
     if rc != 0:
         raise BuildError("instrumenting %s failed:\n%s" % (REPO, out))
     binp = os.path.join(bdir, engine + ".test")
